@@ -27,6 +27,16 @@ def edge_key(rng: random.Random) -> str:
     return base64.b64encode(bytes(raw)).decode()
 
 
+# seeds (for the first device connection, "c1") whose ephemeral X25519 public key starts with 0x00 / 0x00 0x00 or ends in 0x00:
+# the key follows the status byte of the handshake frame directly, a one-in-256 coincidence per session otherwise
+ZERO_EDGE_EPH = ["ce", "169", "1d8", "22a", "25f", "4c1", "14c7d", "25", "6f", "123"]
+
+
+def eph_seed(rng: random.Random) -> str:
+    r = "%x" % rng.getrandbits(32)
+    return pick(rng, ZERO_EDGE_EPH) if rng.random() < 0.08 else r
+
+
 def noise_ready_oracle(ix: Index, scn: dict) -> list[Violation]:
     out: list[Violation] = []
     # the key is valid base64 for exactly 32 bytes: building the helper / starting the session must not be refused
@@ -99,7 +109,7 @@ def helper_case(rng: random.Random, cuts: dict, base: dict | None = None) -> dic
             "family": "framing",
             "knobs": gen_knobs(rng),
             "expected_name": exp,
-            "device": {"transport": "noise", "psk": psk, "eph_seed": "%x" % rng.getrandbits(32), "noise_name": name, "noise_hello_name": has_name, "on_handshake": [{"msgs": msgs[: len(msgs) // 2]}] if msgs and rng.random() < 0.6 else []},
+            "device": {"transport": "noise", "psk": psk, "eph_seed": eph_seed(rng), "noise_name": name, "noise_hello_name": has_name, "on_handshake": [{"msgs": msgs[: len(msgs) // 2]}] if msgs and rng.random() < 0.6 else []},
             "net": {"d2c_latency": [0.0], "c2d_latency": pick(rng, [0.0, 0.001])},
             "actors": [{"id": "a0", "at": {"t": 0.0}, "steps": [{"do": "fh.attach", "kind": "noise", "psk": psk, "expected_name": exp}]}],
             "events": [],
@@ -168,7 +178,7 @@ class C03(CheckBase):
                 "knobs": gen_knobs(rng),
                 "expected_name": exp,
                 "client": client,
-                "device": {"transport": "noise", "psk": psk, "eph_seed": "%x" % rng.getrandbits(32), "noise_name": name, "name": name, "hello": {"name": name}, **({"noise_hs_payload": "00" * pick(rng, [1, 7, 64])} if rng.random() < 0.1 else {})},
+                "device": {"transport": "noise", "psk": psk, "eph_seed": eph_seed(rng), "noise_name": name, "name": name, "hello": {"name": name}, **({"noise_hs_payload": "00" * pick(rng, [1, 7, 64])} if rng.random() < 0.1 else {})},
                 "net": {"cuts": pick(rng, [{"mode": "sizes", "sizes": sizes}, {"mode": "coalesce"}, {"mode": "sizes", "sizes": [1]}]), "d2c_latency": [0.0, 0.001], "c2d_latency": pick(rng, [0.0, 0.001])},
                 "actors": [{"id": "a0", "at": {"t": 0.0}, "steps": [{"do": "connect", "login": True}, {"do": "subscribe_states"}, {"do": "sleep", "d": 3.0}, {"do": "disconnect"}]}],
                 "events": [{"at": {"t": 1.0}, "do": "dev", "act": {"msgs": msgs, "latency": 0.0}}],
